@@ -401,9 +401,9 @@ type TaskRec struct {
 }
 
 type PosRec struct {
-	Key  string
-	Pos  *meta.TaskCollectionPosition
-	Raw  string
+	Key string
+	Pos *meta.TaskCollectionPosition
+	Raw string
 }
 
 // Dump returns a decoded copy of the whole store (not counted as a store call, never fails).
